@@ -242,7 +242,7 @@ func rsCases(thorough bool) {
 						c.HashesOK = false
 					}
 				}
-				small := n <= 5 && ln <= k+1 || thorough && n <= 8 && ln <= 2*k+1
+				small := n <= 4 && ln <= k+1 || thorough && n <= 8 && ln <= 2*k+1
 				if small {
 					// every erasure pattern with up to m parts missing, plus those with m+1 (must fail)
 					for miss := 0; miss <= m+1 && miss <= n; miss++ {
